@@ -22,6 +22,9 @@ MS = 10 ** 6
 def spec_on_impl(o):
     """The property judged on the measured run alone; every inequality is in the safe direction."""
     k = o["script"]
+    k["results"] = k.get("results") or []
+    k["errs"] = k.get("errs") or []
+    o["logged"] = o.get("logged") or []
     delay, done, parent = k["delay"], o["done_at"], o["parent_at"]
     ctxd, ret = o["ctx_done_at"], o["return_at"] if o["returned"] else None
     if o.get("bad_output"):
@@ -187,6 +190,72 @@ def e2e_runs(ctx, idxs):
     return rows
 
 
+CMDS = [("arp", ["arp", "-i", "v0", "10.78.0.0/30"]),
+        ("icmp", ["icmp", "-i", "v0", "-a", "ARP", "10.78.0.2/32"]),
+        ("tcp", ["tcp", "--flags", "syn,ack", "-i", "v0", "-a", "ARP", "-p", "80", "10.78.0.2/32"]),
+        ("tcp syn", ["tcp", "syn", "-i", "v0", "-a", "ARP", "-p", "80", "10.78.0.2/32"]),
+        ("tcp fin", ["tcp", "fin", "-i", "v0", "-a", "ARP", "-p", "80", "10.78.0.2/32"]),
+        ("tcp null", ["tcp", "null", "-i", "v0", "-a", "ARP", "-p", "80", "10.78.0.2/32"]),
+        ("tcp xmas", ["tcp", "xmas", "-i", "v0", "-a", "ARP", "-p", "80", "10.78.0.2/32"]),
+        ("udp", ["udp", "-i", "v0", "-a", "ARP", "-p", "53", "10.78.0.2/32"]),
+        ("socks", ["socks", "-p", "9", "10.78.0.1/32"]),
+        ("docker", ["docker", "-p", "9", "10.78.0.1/32"]),
+        ("elastic", ["elastic", "-p", "9", "10.78.0.1/32"])]
+
+
+def cmd_runs(ctx, idxs, delay_ms=700):
+    """Every scan command of the real binary with --exit-delay D in a private netns: the process must live at least D
+    (wall time from before it is started to after it has exited: at least exit - done)."""
+    rows = []
+    exe = os.path.join(ctx.work, "sx")
+    if not os.path.exists(exe):
+        rc, out = verif.sh(["go", "build", "-o", exe, "."], env=verif.GOENV, cwd=verif.REPO, timeout=900)
+        if rc != 0:
+            ctx.broken.append(("correspondence: the sx binary does not build from the current tree", out[-1500:]))
+            return rows
+    ns = "vc16m%d" % os.getpid()
+    arp = os.path.join(ctx.work, "arp.cache")
+    with open(arp, "w") as f:
+        f.write('{"ip":"10.78.0.2","mac":"02:00:00:c1:60:02"}\n')
+    setup = [["ip", "netns", "add", ns],
+             ["ip", "-n", ns, "link", "add", "v0", "type", "veth", "peer", "name", "v1"],
+             ["ip", "-n", ns, "link", "set", "lo", "up"], ["ip", "-n", ns, "link", "set", "v0", "up"],
+             ["ip", "-n", ns, "link", "set", "v1", "up"], ["ip", "-n", ns, "addr", "add", "10.78.0.1/24", "dev", "v0"]]
+    try:
+        for cmd in setup:
+            rc, out = verif.sh(cmd, timeout=20)
+            if rc != 0:
+                ctx.skipped.append("command runs skipped: cannot set up a network namespace (%s)" % out.strip()[:200])
+                return rows
+        time.sleep(0.3)
+        for i in idxs:
+            name, args = CMDS[i % len(CMDS)]
+            args = [arp if a == "ARP" else a for a in args]
+            o = {"kind": "cmd", "class": "cmd", "id": i % len(CMDS), "cmd": name, "delay_ms": delay_ms}
+            t0 = time.monotonic_ns()
+            try:
+                p = subprocess.run(["ip", "netns", "exec", ns, exe] + args + ["--exit-delay", "%dms" % delay_ms],
+                                   stdout=subprocess.PIPE, stderr=subprocess.PIPE, text=True, timeout=60)
+                o["wall_ns"] = time.monotonic_ns() - t0
+                o["sx_rc"] = p.returncode
+                if p.returncode != 0:
+                    o["err"] = "sx %s failed: %s" % (name, p.stderr.strip()[-300:])
+            except Exception as e:  # noqa: BLE001
+                o["err"] = "run failed: %r" % (e,)
+            rows.append(o)
+    finally:
+        verif.sh(["ip", "netns", "del", ns], timeout=20)
+    return rows
+
+
+def spec_cmd(o):
+    if o.get("err"):
+        return None
+    if o["wall_ns"] < o["delay_ms"] * MS:
+        return "sx %s --exit-delay %dms: the whole process lived only %d ms" % (o["cmd"], o["delay_ms"], o["wall_ns"] // MS)
+    return None
+
+
 def spec_e2e(o):
     if o.get("err"):
         return None
@@ -224,12 +293,14 @@ def run(ctx):
             rows = ctx.read_jsonl(os.path.join(ctx.work, "cases.jsonl"))
     for o in rows:
         k = o["script"]
+        k["results"] = k.get("results") or []
+        k["errs"] = k.get("errs") or []
         ctx.count(o["class"], json.dumps(k, sort_keys=True), nontrivial=o["done_at"] >= 0 and bool(k["results"]),
                   sample={"delay_ns": k["delay"], "done_at": o["done_at"], "ctx_done_at": o["ctx_done_at"],
                           "return_at": o["return_at"], "results(at,taken)": [(r["start"], r["taken"]) for r in k["results"] or []],
                           "logged": o["logged"], "class": o["class"]})
         why = spec_on_impl(o)
-        if why:
+        if why and len(ctx.findings) < 3:
             report(ctx, o, why, ctx.seed, n)
     erows = []
     if os.path.exists(os.path.join(verif.ROOT, "harness", "bin", "c16")):
@@ -244,6 +315,17 @@ def run(ctx):
                               "exit_after_last_probe_ms": (o["exit_unix_ns"] - o["last_probe_unix_ns"]) // MS,
                               "stdout": o["stdout"][:120]})
             why = spec_e2e(o)
+            if why:
+                report(ctx, o, why, ctx.seed, n)
+        crows = cmd_runs(ctx, [ctx.seed * 2 % len(CMDS), (ctx.seed * 2 + 1) % len(CMDS)] if quick else range(len(CMDS)),
+                         delay_ms=500 if quick else 700)
+        for o in crows:
+            if o.get("err"):
+                ctx.skipped.append("sx %s --exit-delay: %s" % (o["cmd"], o["err"]))
+                continue
+            ctx.count("cmd:" + o["cmd"], ("cmd", o["cmd"], o["wall_ns"]), nontrivial=True,
+                      sample={"cmd": "sx %s --exit-delay %dms" % (o["cmd"], o["delay_ms"]), "wall_ms": o["wall_ns"] // MS})
+            why = spec_cmd(o)
             if why:
                 report(ctx, o, why, ctx.seed, n)
     if model_ok and rows:
@@ -272,8 +354,13 @@ def run(ctx):
                 if why and bad < 3:
                     bad += 1
                     report(ctx, o, why, sd, 200)
-            if bad:
-                break
+            if not bad:
+                for o in cmd_runs(ctx, range(len(CMDS)), delay_ms=900):
+                    why = spec_cmd(o)
+                    if why and bad < 3:
+                        bad += 1
+                        report(ctx, o, why, sd, 200)
+            break
     return ctx.finish(rule=RULE)
 
 
@@ -285,6 +372,11 @@ def replay(ctx, path):
     i = r["input"]
     if not ctx.harness_build("c16"):
         return 1
+    if i.get("kind") == "cmd":
+        got = cmd_runs(ctx, [i["id"]], delay_ms=r["observed"].get("delay_ms", 900))
+        why = spec_cmd(got[0]) if got else None
+        print("replay sx %s: %s" % (CMDS[i["id"]][0], why or (got and got[0].get("err")) or "property holds on this run"))
+        return 1 if why else 0
     if i.get("kind") == "e2e":
         got = e2e_runs(ctx, [i["id"]])
         why = spec_e2e(got[0]) if got else None
